@@ -23,6 +23,7 @@ Suppressions:
     - misc,assignment: Node type alias when tree-sitter optional dependency unavailable
 """
 
+import re
 from typing import Any
 
 try:
@@ -56,11 +57,28 @@ def has_test_attribute(function_node: Node) -> bool:
         True if function has #[test] attribute
     """
     prev_sibling = function_node.prev_sibling
-    while prev_sibling is not None and prev_sibling.type == "attribute_item":
-        if "test" in _get_node_text(prev_sibling):
+    while prev_sibling is not None and prev_sibling.type in _ATTRIBUTE_RUN_TYPES:
+        if prev_sibling.type == "attribute_item" and _is_test_attribute_text(
+            _get_node_text(prev_sibling)
+        ):
             return True
         prev_sibling = prev_sibling.prev_sibling
     return False
+
+
+# Comments (incl. doc comments) may sit between an attribute and the item it decorates
+_ATTRIBUTE_RUN_TYPES = ("attribute_item", "line_comment", "block_comment")
+
+
+def _is_test_attribute_text(text: str) -> bool:
+    """Check whether attribute text marks test code (#[test], #[tokio::test], #[cfg(test)], ...).
+
+    String literals (e.g. feature = "latest") are ignored and #[cfg(not(test))] is not a test marker.
+    """
+    without_strings = re.sub(r'"[^"]*"', '""', text)
+    if re.search(r"\bnot\s*\(\s*test\s*\)", without_strings):
+        return False
+    return "test" in without_strings
 
 
 def has_cfg_test_attribute(mod_node: Node) -> bool:
